@@ -104,10 +104,10 @@ def run_model_case(case, ctx):
 
 def run_chain_case(case, ctx):
     L, mode, chains = case['L'], case['mode'], case['chains']
-    nz = [c for c in chains if c[2] != 0]
+    nz = [c for c in chains if c05.cval(c[2]) != 0]
     if not nz:
         raise OutOfDomain()
-    ocs = [OpChain(w, q, c, istart) for istart, w, c, q in chains]
+    ocs = [OpChain(w, q, c05.cval(c), istart) for istart, w, c, q in chains]
     graph = OpGraph.from_opchains(ocs, L, 0)
     ctx.calls += 1
     layers = sym.graph_layers(graph)
